@@ -92,6 +92,7 @@ func NewStrListDecoder(reuseRecords bool) *StrListDecoder {
 }
 
 func (d *StrListDecoder) strSlice(n uint32) []string {
+	n = preallocCount(n)
 	if d.strs != nil {
 		if n > uint32(cap(d.strs)) {
 			d.strs = make([]string, 0, n)
